@@ -119,7 +119,7 @@ func (s feeSnap) String() string {
 
 func (s feeSnap) equal(t feeSnap) bool { return s.String() == t.String() }
 
-func coinsStr(cs sdk.Coins) string {
+func feeCoinsStr(cs sdk.Coins) string {
 	if len(cs) == 0 {
 		return "-"
 	}
@@ -130,7 +130,7 @@ func coinsStr(cs sdk.Coins) string {
 	return strings.Join(p, ",")
 }
 
-func decCoinsStr(cs sdk.DecCoins) string {
+func feeDecCoinsStr(cs sdk.DecCoins) string {
 	if len(cs) == 0 {
 		return "-"
 	}
@@ -360,7 +360,7 @@ func granterName(g int) string {
 // property oracle for one ante execution, from balances only
 func (w *feeWorld) anteOracle(via string, mode string, height int64, minGas sdk.DecCoins, payer, granter int, fee sdk.Coins, gas uint64, cls string, pre, post feeSnap) {
 	e := w.e
-	desc := fmt.Sprintf("via=%s mode=%s height=%d fee=%s gas=%d mingas=%s payer=a%d granter=%s", via, mode, height, coinsStr(fee), gas, decCoinsStr(minGas), payer, granterName(granter))
+	desc := fmt.Sprintf("via=%s mode=%s height=%d fee=%s gas=%d mingas=%s payer=a%d granter=%s", via, mode, height, feeCoinsStr(fee), gas, feeDecCoinsStr(minGas), payer, granterName(granter))
 	if via == "direct" && height <= 0 && gas == 0 {
 		// getTxPriority divides by the gas limit; the zero-gas guard only applies at height > 0. Not reachable through
 		// CheckTx/FinalizeBlock after genesis (and baseapp recovers ante panics), so noted, not failed.
@@ -537,7 +537,7 @@ func feeHistory(e *Env, h int) bool {
 			}
 			tx := rawFeeTx{FeeTx: btx.(sdk.FeeTx), fee: fee}
 			pre := w.snap(c.Ctx())
-			e.In("ante via=direct mode=%s height=%d mingas=%s fee=%s gas=%d payer=a%d granter=%s grant=%d others=1", md.name, height, decCoinsStr(mg), coinsStr(fee), gas, payer, granterName(granter), w.grantFlag(payer, granter))
+			e.In("ante via=direct mode=%s height=%d mingas=%s fee=%s gas=%d payer=a%d granter=%s grant=%d others=1", md.name, height, feeDecCoinsStr(mg), feeCoinsStr(fee), gas, payer, granterName(granter), w.grantFlag(payer, granter))
 			err, p := c.Call(func(ctx sdk.Context) error {
 				hi := ctx.HeaderInfo()
 				hi.Height = height
@@ -577,15 +577,15 @@ func feeHistory(e *Env, h int) bool {
 				cs = append(cs, sdk.Coin{Denom: d, Amount: a})
 			}
 			pre := w.snap(c.Ctx())
-			e.In("burn coins=%s", coinsStr(cs))
+			e.In("burn coins=%s", feeCoinsStr(cs))
 			err, p := c.Call(func(ctx sdk.Context) error { return c.App.FeeKeeper.Burn(ctx, cs) })
 			cls := class(err, p)
 			post := w.snap(c.Ctx())
 			e.Stat("burn." + cls)
 			e.Obs("%s %s", cls, post)
-			e.Oracle("no_panic", cls != "panic", "burn %s", coinsStr(cs))
+			e.Oracle("no_panic", cls != "panic", "burn %s", feeCoinsStr(cs))
 			if cls != "ok" {
-				e.Oracle("burn_failed_no_change", pre.equal(post), "burn %s", coinsStr(cs))
+				e.Oracle("burn_failed_no_change", pre.equal(post), "burn %s", feeCoinsStr(cs))
 			} else {
 				want := sdkmath.ZeroInt()
 				one := new(big.Int).Exp(big.NewInt(10), big.NewInt(18), nil)
@@ -616,7 +616,7 @@ func feeHistory(e *Env, h int) bool {
 						ok = false
 					}
 				}
-				e.Oracle("burn_exact", ok, "burn %s ratio=%s floor=%s", coinsStr(cs), w.burnRatio, want)
+				e.Oracle("burn_exact", ok, "burn %s ratio=%s floor=%s", feeCoinsStr(cs), w.burnRatio, want)
 			}
 		}
 		// ---------------- phase B: real CheckTx against the node's min gas prices
@@ -655,7 +655,7 @@ func feeHistory(e *Env, h int) bool {
 				e.Stat("checktx.undecodable")
 				continue
 			}
-			e.Note("declared fee=%s seen by the chain as %s", coinsStr(declared), coinsStr(fee))
+			e.Note("declared fee=%s seen by the chain as %s", feeCoinsStr(declared), feeCoinsStr(fee))
 			pre := w.snap(cctx)
 			var res *abci.CheckTxResponse
 			var pn any
@@ -674,7 +674,7 @@ func feeHistory(e *Env, h int) bool {
 					others = 0
 				}
 			}
-			e.In("ante via=checktx mode=check height=%d mingas=%s fee=%s gas=%d payer=a%d granter=%s grant=%d others=%d", c.Height, decCoinsStr(w.minGas), coinsStr(fee), gas, payer, granterName(granter), w.grantFlag(payer, granter), others)
+			e.In("ante via=checktx mode=check height=%d mingas=%s fee=%s gas=%d payer=a%d granter=%s grant=%d others=%d", c.Height, feeDecCoinsStr(w.minGas), feeCoinsStr(fee), gas, payer, granterName(granter), w.grantFlag(payer, granter), others)
 			post := w.snap(c.App.NewContext(true))
 			e.Stat("checktx." + cls)
 			e.Obs("%s %s", cls, post)
@@ -721,7 +721,7 @@ func feeHistory(e *Env, h int) bool {
 			}
 			post := w.snap(c.Ctx())
 			// the collector and supplies are also touched by begin/end blockers (mint, distribution): users only
-			e.In("ante via=block mode=finalize height=%d mingas=- fee=%s gas=%d payer=a%d granter=%s grant=%d others=1", c.Height, coinsStr(fee), gas, payer, granterName(granter), w.grantFlag(payer, granter))
+			e.In("ante via=block mode=finalize height=%d mingas=- fee=%s gas=%d payer=a%d granter=%s grant=%d others=1", c.Height, feeCoinsStr(fee), gas, payer, granterName(granter), w.grantFlag(payer, granter))
 			var sb strings.Builder
 			for i := range c.Accs {
 				n := fmt.Sprintf("a%d", i)
@@ -753,7 +753,7 @@ func feeHistory(e *Env, h int) bool {
 					}
 				}
 			}
-			e.Oracle("block_fee_moved_or_nothing", ok, "fee=%s payer=a%d granter=%s cls=%s", coinsStr(fee), payer, granterName(granter), cls)
+			e.Oracle("block_fee_moved_or_nothing", ok, "fee=%s payer=a%d granter=%s cls=%s", feeCoinsStr(fee), payer, granterName(granter), cls)
 			if cls == "ok" && !fee.IsZero() {
 				got := false
 				for _, ev := range br.Txs[0].Events {
